@@ -559,7 +559,17 @@ func (g *GoBackNConn) receivePacketsForever() error { // nolint:gocyclo
 			g.pongTicker.Pause()
 		}
 
-		g.resendTicker.Reset(g.timeoutManager.GetResendTimeout())
+		// The resend timer measures how long we have been waiting for a
+		// response to the packets we have sent, so only packets that
+		// respond to them (ACKs and NACKs) restart it. Restarting it for
+		// every received packet would let a peer that keeps sending data
+		// postpone the retransmission of a lost packet indefinitely.
+		switch msg.(type) {
+		case *PacketACK, *PacketNACK:
+			g.resendTicker.Reset(
+				g.timeoutManager.GetResendTimeout(),
+			)
+		}
 
 		switch m := msg.(type) {
 		case *PacketData:
